@@ -140,20 +140,19 @@ class Scen(CompScenario):
         self.ways = c["ways"]
         self.groups = [list(g) for g in c["groups"]]
         self.contend = bool(c.get("contend"))
-        wkw = {} if c["width"] is None else None
-        self.width = 32 if c["width"] is None else c["width"]
+        self.width = 32 if c["width"] is None else c["width"]  # None: the constructor's default (32 bits)
         arg_shape = None
         if self.kind == "counter":
-            kw = {} if wkw is not None else {"width_bits": c["width"]}
+            kw = {} if c["width"] is None else {"width_bits": c["width"]}
             self.dut = HwCounter("dut.counter", "counter under test", ways=self.ways, **kw)
         elif self.kind == "tagged":
-            kw = {} if wkw is not None else {"registers_width": c["width"]}
+            kw = {} if c["width"] is None else {"registers_width": c["width"]}
             self.tagvals = sorted(set(tag_values(c["tags"])))
             self.dut = TaggedCounter("dut.tagged", "tagged counter under test", tags=make_tags(c["tags"]),
                                      ways=self.ways, **kw)
             arg_shape = self.dut.tag_shape
         else:
-            kw = {} if wkw is not None else {"registers_width": c["width"]}
+            kw = {} if c["width"] is None else {"registers_width": c["width"]}
             self.dut = HwExpHistogram("dut.hist", "histogram under test", bucket_count=c["bucket_count"],
                                       sample_width=c["sample_width"], ways=self.ways, **kw)
             arg_shape = c["sample_width"]
@@ -481,7 +480,7 @@ def gen_groups(rng, ways):
 class Prop(PropBase):
     ID = "C31"
     tiers = {
-        "quick": {"runs": 4000, "selftest_runs": 4},
+        "quick": {"runs": 4000, "selftest_runs": 4, "run_budget_s": 120},
         "thorough": {"runs": 40000, "selftest_runs": 32},
     }
     rule = ("one run = one metric kind (HwCounter / TaggedCounter / HwExpHistogram) in one configuration (ways, register "
